@@ -647,6 +647,14 @@ fn session(ctx: &Ctx, kernel: &K) -> WorldResult {
         }
     }
     let mut verdict = Ok(());
+    if ctx.prop == "C17" {
+        let msg = kernel.borrow_mut().ignored_input.take();
+        if let Some(msg) = msg {
+            let mut k = kernel.borrow_mut();
+            return_violation(kernel, &mut k);
+            return Err(violation("C17", "C17.starved-input", "run-render:tty-readable-but-not-read", msg));
+        }
+    }
     if drained && ctx.prop == "C17" && !error_path {
         // everything has been delivered and consumed, nothing is scheduled: what the user typed
         // and the wake requests must have reached the handler (or the polls after it returned)
